@@ -936,5 +936,56 @@ func runC09(c *wk.Ctx) {
 			c09CloseBubble(c, idx*1000+900+int64(j), r)
 			c.Begin(idx*1000+990+int64(j), "c09-close-done", nil)
 		}
+		c09CloseStorm(c, idx)
 	}
+}
+
+// c09CloseStorm: Close racing Close, many times. Six goroutines leave a spin barrier together and call Close on a fresh
+// session; a panic in any of them (double close of a channel, of the connection) is reported, and so is a Close that does
+// not return. The single concurrent Close at the end of the stress run meets one schedule; this meets a few hundred.
+func c09CloseStorm(c *wk.Ctx, idx int64) {
+	const racers, batch = 6, 50
+	n := int(c.N(150, 600))
+	for k0 := 0; k0 < n; k0 += batch {
+		c.Begin(idx*1000+800+int64(k0/batch), "c09-close-storm", nil)
+		// Close sleeps a second before it returns: the sessions of a batch are closed side by side
+		var wg sync.WaitGroup
+		bad := atomic.Bool{}
+		for k := k0; k < k0+batch; k++ {
+			rec := mon.NewRecorder(1)
+			s, err := mon.NewSession(rec, mon.DefaultNIC(), 0, 0, 0)
+			if err != nil {
+				panic("HARNESS BUG: " + err.Error())
+			}
+			ready := new(atomic.Int32)
+			for g := 0; g < racers; g++ {
+				wg.Add(1)
+				go func() {
+					defer wg.Done()
+					ready.Add(1)
+					for ready.Load() < racers {
+						runtime.Gosched() // the stress run may have left GOMAXPROCS at 1 or 2
+					}
+					if c.Guard("C09", func() any { return map[string]any{"index": idx, "storm_round": k, "racers": racers} }, func() { s.Close() }) != nil {
+						bad.Store(true)
+					}
+				}()
+			}
+		}
+		done := make(chan struct{})
+		go func() { wg.Wait(); close(done) }()
+		select {
+		case <-done:
+		case <-time.After(30 * time.Second):
+			buf := make([]byte, 1<<20)
+			dump := string(buf[:runtime.Stack(buf, true)])
+			c.Viol("deadlock-in-concurrent-close:"+firstPacketFrame(dump), "six concurrent Close calls did not all return within 30 s:\n"+dump[:min(len(dump), 12000)], map[string]any{"index": idx, "storm_batch": k0 / batch})
+			return
+		}
+		c.Obs("sessions_closed_by_six_goroutines_at_once", batch)
+		if bad.Load() {
+			return
+		}
+	}
+	time.Sleep(200 * time.Millisecond)
 }
